@@ -48,8 +48,8 @@ CONFIGS = {
     'EKF-MARG': [(dict(frame='NED', magnetic_ref=DIP, frequency=10.0), 1200, 0.5), (dict(frame='NED', magnetic_ref=DIP, frequency=100.0), 9000, 0.5)],
     'EKF-MARG-ENU': [(dict(frame='ENU', magnetic_ref=DIP, frequency=10.0), 1200, 0.5)],
     'UKF-IMU': [(dict(frequency=10.0), 2000, 1.0), (dict(frequency=100.0), 2000, 1.0)],
-    'AQUA-IMU': [(dict(frequency=10.0, alpha=0.05), 400, 0.5), (dict(frequency=100.0), 1500, 0.5)],
-    'AQUA-MARG': [(dict(frequency=10.0, alpha=0.05, beta=0.05), 500, 0.5), (dict(frequency=100.0), 2000, 0.5)],
+    'AQUA-IMU': [(dict(frequency=10.0, alpha=0.05), 400, 0.5), (dict(frequency=100.0), 1500, 0.5), (dict(frequency=10.0, alpha=0.05, adaptive=True), 400, 0.5)],
+    'AQUA-MARG': [(dict(frequency=10.0, alpha=0.05, beta=0.05), 500, 0.5), (dict(frequency=100.0), 2000, 0.5), (dict(frequency=10.0, alpha=0.05, beta=0.05, adaptive=True), 500, 0.5)],
     'ROLEQ-MARG': [(dict(frame='NED', magnetic_ref=DIP, frequency=10.0), 200, 0.5), (dict(frame='NED', magnetic_ref=DIP, frequency=100.0), 200, 0.5)],
     'ROLEQ-MARG-ENU': [(dict(frame='ENU', magnetic_ref=DIP, frequency=10.0), 300, 0.5)],
     'FKF-MARG': [(dict(frequency=10.0), 3000, 0.5)],
